@@ -105,6 +105,19 @@ Definition val_items (v : val) : list val :=
   | _ => [v]
   end.
 
+(* custom(|inp| ..) parsers written against InputRef's public API: a straight-line program (interpreted identically by the
+   Rust harness).  Its output is the list of the values pushed. *)
+Inductive cop :=
+| CNext            (* inp.next():     push the token (or Unit at the end of input) *)
+| CNextRef         (* inp.next_ref(): the same by reference (BorrowInput kinds; elsewhere inp.next()) *)
+| CPeek            (* inp.peek():     push the token ahead (or Unit) without consuming it *)
+| CSkip            (* inp.skip() *)
+| CSave            (* push inp.save() on the program's checkpoint stack *)
+| CRewind          (* pop a checkpoint and inp.rewind(it) (nothing when the stack is empty) *)
+| CExpect (t : tok) (* inp.next() must be t, otherwise return Err(custom k, inp.span_since(&start)) without rewinding *)
+| CSpan            (* push inp.span_since(&start) *)
+| CState.          (* push the user state as the inspector has it now *)
+
 (* collect containers *)
 Inductive ckind := CVec | CCount | CUnit.
 
@@ -167,6 +180,7 @@ Inductive G :=
 | WithState (k : N) (a : G)         (* a.with_state(HState::seeded(k)): a runs on a fresh copy of that state, the outer state is untouched *)
 | Skip (n : nat)                    (* custom(|inp| { for _ in 0..n { inp.skip() } Ok(()) }): InputRef::skip, n times *)
 | ExtWrap (a : G)                   (* Ext(P) with ExtParser::parse = inp.parse(&a) and a separate ExtParser::check = inp.check(&a) *)
+| Prog (ops : list cop) (k : nat)    (* custom(|inp| ..) running the program ops; k = the error it fails with *)
 | Padded (ws : list tok) (a : G)    (* a.padded(): InputRef::skip_while(is_whitespace) before and after a; ws = the whitespace characters
                                        (text::Char::is_whitespace restricted to the alphabet in use); skip_while records no error *)
 with pop :=
@@ -181,7 +195,9 @@ with IT :=
 | IMapWith (f : mw) (i : IT)
 | IOrNot (a : G)
 | IRepCfg (a : G) (lo : nat) (hi : option nat) (ck : nat)
-| IIntoIter (a : G).                (* a.into_iter(): a's output (a container) is produced by make_iter, `next` hands out its items *)
+| IIntoIter (a : G)
+| IThen (i j : IT).                (* a.into_iter(): a's output (a container) is produced by make_iter, `next` hands out its items *)
+                                    (* IThen i j: i.then(j) used as an iterable: the items of i, then (a fresh) j's *)
     (* a.repeated().at_least(lo).at_most(hi).configure(|cfg, ctx| ..) with n = count ctx and
        ck = 0: cfg.exactly(n); 1: cfg.at_least(n); 2: cfg.at_most(n); otherwise cfg unchanged *)
 
